@@ -11,7 +11,7 @@ import (
 func init() {
 	register(&Spec{ID: "C02", Title: "Received package stream does not depend on fragmentation", Run: runC02,
 		Meta: core.Meta{
-			Explanation: "R02.20: ParamsPackage.LastPkg stores through its receiver only. R02.18 = R15.14, R02.19 = R07.10. R02.17 (E-CONST): no error return of PacketHeader.Write is guarded by an upper bound below 65535 on a header field. R02.16 = R15.6 (queue.packetSize() is used for NewPacket only — not to guess from a short packet that a message ended). R02.15 = R15.11 (a derived 'unread bytes' counter must not make Bytes fail while bytes are queued: a package spanning several packets would never complete). R02.13 = R07.3 (the retry decision uses errors.Is, not identity: ROWFMT/ROW/PARAMS parsers return the sentinel wrapped). R02.14 = R15.7 (what a completed package frees is decided on the packet under the position after the shift: with packets of unequal size an unread remainder would be dropped). Structural necessary conditions of fragmentation independence; equality of delivered packages over all cut sets is not decided. R02.7: in NextPackageUntil the wait flag handed to NextPackage is the constant true on every back edge of the receive loop (only the first receive may poll). R02.9: in Packet.ReadFrom the buffer of every body read is packet.Data[off:] where off is the running byte count minus the header bytes, and that count is advanced by exactly the result of this read on the way back to it — a body that arrives in three or more reads is otherwise assembled with overwritten or skipped bytes. R02.10 = R12.2 (the reader hands each packet to the channel looked up under that packet's own Header.Channel; a channel remembered from the first packet of a message mis-routes packets of other channels that arrive in between). R02.11 (E-OWN): every use of Channel.queueRx lies in a function statically reachable from (*Conn).ReadFrom, or is the initialisation in NewChannel; a consumer-side function that resets it (e.g. the deferred reset after a send) can run between two packets of a response and discard the half package kept for the retry. R02.12 = R03.2 (lastPkgRx, which the next package's LastPkg consults, is assigned only after a package was delivered — a half-parsed package of a failed attempt must not become the predecessor of its own retry). R02.8 = R14.4 (the reader goroutine hands every completely received packet, including one returned together with io.EOF, to its channel). R02.1 (parse-or-rollback in WritePacket): the position handed to SetPosition on a failed attempt is exactly the pair returned by the Position() call made in the same loop iteration before tryParsePackage, with no DiscardUntilCurrentPosition in between (a discard shifts packet indices); a failed attempt returns through Reset() on the IsEOM edge or through that SetPosition; a successful attempt is followed by DiscardUntilCurrentPosition before the next attempt. R02.2: fresh parse state per attempt — every arm of LookupPackage returns a freshly allocated package, tryParsePackage calls it once per attempt, no wire-reading function writes a package-level variable. R02.3: transport reads that must fill a fixed buffer are io.ReadFull or sit in a counted loop: PacketHeader.ReadFrom returns success only after a full 8-byte read, Packet.ReadFrom returns success only when totalBytes == Header.Length. R02.4: AddPacket appends at the end of the queue and derives recvEOM from the packet's EOM bit only. R02.5: the parser side of fragmentation tolerance — every short read surfaces as ErrNotEnoughBytes — is C07's E-ERR rule, re-run here over all wire-read call sites (a parser that loses one such check reports a parse error for a response that is merely fragmented at that point). R02.1 also requires that tryParsePackage handles one package per invocation (no self-call, no loop around LookupPackage), so that the discard and the next saved position follow every handled package. R02.6: every return of PacketQueue.Bytes hands back the buffer allocated by that call (never a sub-slice of packet storage or a reused buffer that later reads overwrite while delivered packages still reference it).",
+			Explanation: "R02.21: fields of tds.Conn whose type implements io.Reader are stored by NewConn only (a reader replaced on a live connection loses what it had read ahead). R02.22 = R15.18. R02.23 = R03.21. R02.20: ParamsPackage.LastPkg stores through its receiver only. R02.18 = R15.14, R02.19 = R07.10. R02.17 (E-CONST): no error return of PacketHeader.Write is guarded by an upper bound below 65535 on a header field. R02.16 = R15.6 (queue.packetSize() is used for NewPacket only — not to guess from a short packet that a message ended). R02.15 = R15.11 (a derived 'unread bytes' counter must not make Bytes fail while bytes are queued: a package spanning several packets would never complete). R02.13 = R07.3 (the retry decision uses errors.Is, not identity: ROWFMT/ROW/PARAMS parsers return the sentinel wrapped). R02.14 = R15.7 (what a completed package frees is decided on the packet under the position after the shift: with packets of unequal size an unread remainder would be dropped). Structural necessary conditions of fragmentation independence; equality of delivered packages over all cut sets is not decided. R02.7: in NextPackageUntil the wait flag handed to NextPackage is the constant true on every back edge of the receive loop (only the first receive may poll). R02.9: in Packet.ReadFrom the buffer of every body read is packet.Data[off:] where off is the running byte count minus the header bytes, and that count is advanced by exactly the result of this read on the way back to it — a body that arrives in three or more reads is otherwise assembled with overwritten or skipped bytes. R02.10 = R12.2 (the reader hands each packet to the channel looked up under that packet's own Header.Channel; a channel remembered from the first packet of a message mis-routes packets of other channels that arrive in between). R02.11 (E-OWN): every use of Channel.queueRx lies in a function statically reachable from (*Conn).ReadFrom, or is the initialisation in NewChannel; a consumer-side function that resets it (e.g. the deferred reset after a send) can run between two packets of a response and discard the half package kept for the retry. R02.12 = R03.2 (lastPkgRx, which the next package's LastPkg consults, is assigned only after a package was delivered — a half-parsed package of a failed attempt must not become the predecessor of its own retry). R02.8 = R14.4 (the reader goroutine hands every completely received packet, including one returned together with io.EOF, to its channel). R02.1 (parse-or-rollback in WritePacket): the position handed to SetPosition on a failed attempt is exactly the pair returned by the Position() call made in the same loop iteration before tryParsePackage, with no DiscardUntilCurrentPosition in between (a discard shifts packet indices); a failed attempt returns through Reset() on the IsEOM edge or through that SetPosition; a successful attempt is followed by DiscardUntilCurrentPosition before the next attempt. R02.2: fresh parse state per attempt — every arm of LookupPackage returns a freshly allocated package, tryParsePackage calls it once per attempt, no wire-reading function writes a package-level variable. R02.3: transport reads that must fill a fixed buffer are io.ReadFull or sit in a counted loop: PacketHeader.ReadFrom returns success only after a full 8-byte read, Packet.ReadFrom returns success only when totalBytes == Header.Length. R02.4: AddPacket appends at the end of the queue and derives recvEOM from the packet's EOM bit only. R02.5: the parser side of fragmentation tolerance — every short read surfaces as ErrNotEnoughBytes — is C07's E-ERR rule, re-run here over all wire-read call sites (a parser that loses one such check reports a parse error for a response that is merely fragmented at that point). R02.1 also requires that tryParsePackage handles one package per invocation (no self-call, no loop around LookupPackage), so that the discard and the next saved position follow every handled package. R02.6: every return of PacketQueue.Bytes hands back the buffer allocated by that call (never a sub-slice of packet storage or a reused buffer that later reads overwrite while delivered packages still reference it).",
 			NotDecided:  "Values, order and exactly-once delivery of packages across packetisations are not decided.",
 			Assumptions: []string{"io.ReadFull contract (standard library)"},
 		}})
@@ -45,6 +45,12 @@ func runC02(r *core.Run) {
 	defer noGenericReaderOverQueue(r, "R02.19")
 	r.Rule("R02.20", "preparing a row from its predecessor leaves the predecessor unchanged (a rolled-back attempt leaves no trace)", 1, false)
 	defer lastPkgReadsOnly(r, "R02.20")
+	r.Rule("R02.21", "the transport is read through one reader for the life of the connection", 1, false)
+	defer readerFieldsSetOnce(r, "R02.21")
+	r.Rule("R02.22", "end of data is decided from both coordinates of the position (R15.18)", 1, false)
+	defer consumedLooksAtBoth(r, "R02.22")
+	r.Rule("R02.23", "every received packet is an object of its own (R03.21)", 1, false)
+	defer freshPacketPerRead(r, "R02.23")
 	r.Rule("R02.9", "every transport read of a packet body continues where the previous one stopped", 1, false)
 	r.Rule("R02.8", "the reader goroutine routes every completely received packet (R14.4)", 4, false)
 	r.Rule("R02.5", "every short read surfaces as ErrNotEnoughBytes (E-ERR, all call sites)", 213, true)
